@@ -5,4 +5,9 @@ HARNESSES = [
     COMMON["dec12"]("cbc_unpad", ["C02"], COMMON["dec12_cases"](64, 40, dtls_only=("dtls10", "dtls12n")) + COMMON["dec12_cases"](96, 56, tier="thorough")),
     COMMON["dec13"]("tls13_inner", ["C02"], ns=((48, "quick"), (96, "thorough"))),
 ]
-PROPERTY = dict(level="model_checking", explanation="", bounds="", outside="", assumptions=[])
+PROPERTY = dict(level='model_checking',
+    claim='Record layer binding between the wire and the AEAD/HMAC primitives: nonce, AAD, ciphertext/tag ranges, sequence-number handling, CBC unpadding and MAC position, TLS 1.3 inner-plaintext stripping; any MAC/decrypt failure yields a fatal alert and no data. Primitive unforgeability is assumed.',
+    bounds='record bodies 16..40 bytes (AEAD glue, enumerated), 64/40/48-byte buffers for the decoders',
+    outside='ChaCha20-Poly1305 glue functions, plaintext lengths above the buffer bound, multi-record splicing beyond the sequence-number binding',
+    explanation='Record layer binding between the wire and the AEAD/HMAC primitives: nonce, AAD, ciphertext/tag ranges, sequence-number handling, CBC unpadding and MAC position, TLS 1.3 inner-plaintext stripping; any MAC/decrypt failure yields a fatal alert and no data. Primitive unforgeability is assumed.',
+    assumptions=[])
